@@ -319,6 +319,22 @@ func (y *ydFunc) ruleYD1(c *Ctx, r *Report, rule string) {
 				}
 			}
 		}
+		// the result kept in a variable (`more = yield(x)`, then `for more && …`): follow only the successors that
+		// are possible while the variable still holds the value it got from a false result
+		if offender == nil && kind == "stmt" {
+			if obj, val, ok := y.resultVar(s); ok {
+				off, decided := y.reachWithFlag(s, obj, val, siteIn)
+				if decided {
+					pos := c.pos(s.call.Pos())
+					if off == nil {
+						r.holds(rule, y.f.name, y.siteDesc(s), pos, "the result is kept in a variable; no callback call is reachable while that variable holds the value of a false result (flag form)")
+					} else {
+						r.violated(rule, y.f.name, y.siteDesc(s), pos, fmt.Sprintf("after this call returns false (flag form) the callback call at %s is reachable", c.pos(off.call.Pos())))
+					}
+					continue
+				}
+			}
+		}
 		if offender == nil {
 			reach := reachable(succs)
 			for b := range reach {
@@ -697,4 +713,166 @@ func isRecordReader(fo *types.Func) bool {
 		return false
 	}
 	return types.Identical(sig.Results().At(1).Type(), types.Universe.Lookup("error").Type())
+}
+
+// resultVar: the site's statement assigns the callback's result (or its negation) to one variable; returns the
+// variable and the value it holds after a false result.
+func (y *ydFunc) resultVar(s *cbSite) (types.Object, bool, bool) {
+	as, ok := s.block.Nodes[s.idx].(*ast.AssignStmt)
+	if !ok || len(as.Lhs) != 1 || len(as.Rhs) != 1 {
+		return nil, false, false
+	}
+	id, ok := ast.Unparen(as.Lhs[0]).(*ast.Ident)
+	if !ok {
+		return nil, false, false
+	}
+	info := y.f.pkg.TypesInfo
+	obj := info.Defs[id]
+	if obj == nil {
+		obj = info.Uses[id]
+	}
+	if obj == nil {
+		return nil, false, false
+	}
+	o, has := condOutcomes(as.Rhs[0], s.call)
+	if !has || (o != mayT && o != mayF) {
+		return nil, false, false
+	}
+	return obj, o == mayT, true
+}
+
+// flagOutcomes evaluates a condition in three-valued logic with the variable obj fixed to val.
+func flagOutcomes(e ast.Expr, info *types.Info, obj types.Object, val bool) int {
+	switch x := e.(type) {
+	case *ast.ParenExpr:
+		return flagOutcomes(x.X, info, obj, val)
+	case *ast.Ident:
+		if info.Uses[x] == obj {
+			if val {
+				return mayT
+			}
+			return mayF
+		}
+	case *ast.UnaryExpr:
+		if x.Op == token.NOT {
+			o := flagOutcomes(x.X, info, obj, val)
+			n := 0
+			if o&mayT != 0 {
+				n |= mayF
+			}
+			if o&mayF != 0 {
+				n |= mayT
+			}
+			return n
+		}
+	case *ast.BinaryExpr:
+		if x.Op == token.LAND || x.Op == token.LOR {
+			l, r := flagOutcomes(x.X, info, obj, val), flagOutcomes(x.Y, info, obj, val)
+			res := 0
+			if x.Op == token.LAND {
+				if l&mayF != 0 || r&mayF != 0 {
+					res |= mayF
+				}
+				if l&mayT != 0 && r&mayT != 0 {
+					res |= mayT
+				}
+				// both false-only operands make true impossible
+				if l == mayF || r == mayF {
+					res = mayF
+				}
+			} else {
+				if l&mayT != 0 || r&mayT != 0 {
+					res |= mayT
+				}
+				if l&mayF != 0 && r&mayF != 0 {
+					res |= mayF
+				}
+				if l == mayT || r == mayT {
+					res = mayT
+				}
+			}
+			return res
+		}
+	}
+	return mayT | mayF
+}
+
+// reachWithFlag walks forward from just after the site while obj keeps val; a reassignment of obj ends the
+// knowledge (all successors are then followed). Returns the first callback site reached.
+func (y *ydFunc) reachWithFlag(s *cbSite, obj types.Object, val bool, siteIn map[*cfg.Block][]*cbSite) (*cbSite, bool) {
+	info := y.f.pkg.TypesInfo
+	assigns := func(n ast.Node) bool {
+		found := false
+		inspectNoLit(n, func(m ast.Node) bool {
+			switch x := m.(type) {
+			case *ast.AssignStmt:
+				for _, l := range x.Lhs {
+					if id, ok := ast.Unparen(l).(*ast.Ident); ok && (info.Uses[id] == obj || info.Defs[id] == obj) {
+						found = true
+					}
+				}
+			case *ast.IncDecStmt:
+				if id, ok := ast.Unparen(x.X).(*ast.Ident); ok && info.Uses[id] == obj {
+					found = true
+				}
+			case *ast.UnaryExpr:
+				if x.Op == token.AND {
+					if id, ok := ast.Unparen(x.X).(*ast.Ident); ok && info.Uses[id] == obj {
+						found = true // address taken
+					}
+				}
+			}
+			return true
+		})
+		return found
+	}
+	type state struct {
+		b     *cfg.Block
+		known bool
+	}
+	seen := map[state]bool{}
+	var offender *cbSite
+	var walk func(b *cfg.Block, from int, known bool)
+	walk = func(b *cfg.Block, from int, known bool) {
+		for i := from; i < len(b.Nodes); i++ {
+			for _, t := range siteIn[b] {
+				if t.idx == i && (offender == nil || t.call.Pos() < offender.call.Pos()) {
+					// the condition node itself may contain the call after the flag: `more && yield(x)` is pruned below
+					if !(i == len(b.Nodes)-1 && known && len(b.Succs) == 2) {
+						offender = t
+					} else if e, ok := b.Nodes[i].(ast.Expr); ok {
+						// evaluated only if the flag lets it: conservatively an offender unless the flag alone decides
+						if o := flagOutcomes(e, info, obj, val); o == (mayT | mayF) {
+							offender = t
+						}
+					}
+				}
+			}
+			if assigns(b.Nodes[i]) && !(b == s.block && i == s.idx) {
+				known = false
+			}
+		}
+		succs := b.Succs
+		if known && len(b.Succs) == 2 && len(b.Nodes) > 0 {
+			if e, ok := b.Nodes[len(b.Nodes)-1].(ast.Expr); ok {
+				o := flagOutcomes(e, info, obj, val)
+				succs = nil
+				if o&mayT != 0 {
+					succs = append(succs, b.Succs[0])
+				}
+				if o&mayF != 0 {
+					succs = append(succs, b.Succs[1])
+				}
+			}
+		}
+		for _, su := range succs {
+			st := state{su, known}
+			if !seen[st] {
+				seen[st] = true
+				walk(su, 0, known)
+			}
+		}
+	}
+	walk(s.block, s.idx+1, true)
+	return offender, true
 }
